@@ -40,8 +40,10 @@ package sender
 
 //@ func sender.mapFile
 //@   pure
-//@   ensures result != nil && result.fileSize == len && result.pOffset == 0 && result.pLen == 0 && result.pSize == 0 && len(result.window) == 0
-//@   ensures result.defWindowSize >= 1024 && mod(result.defWindowSize, 1024) == 0
+//@   fresh
+//@   requires[C02] [sizes] 0 < readSize && 0 <= blkSize && (blkSize == 0 || mod(readSize, blkSize) == 0 || readSize + blkSize <= 2147483647)
+//@   ensures result != nil && result.fileSize == len && result.pOffset == 0 && result.pLen == 0 && result.pSize == 0 && len(result.window) == 0 && result.pFdOffset == 0 && result.f == f
+//@   ensures result.defWindowSize >= 1024 && mod(result.defWindowSize, 1024) == 0 && result.defWindowSize <= 4294967296
 
 //@ fieldinv progress.Printer.oldest: 0 <= v && v < 5
 
@@ -70,7 +72,9 @@ package sender
 // (I/O errors are never the fs.SkipDir sentinel)
 //@ extern (sender.FileSource).Open params s, name
 //@   effect srcread(data(s))
+//@   modifies ghost.fpos
 //@   ensures err != nil ==> result == nil
+//@   ensures err == nil ==> result != nil && ghost.fpos == store(old(ghost.fpos), data(result), 0)
 //@   ensures !isSkipDir(err)
 //@ extern (sender.FileSource).Readlink params s, name
 //@   effect srcread(data(s))
@@ -92,6 +96,7 @@ package sender
 //@   ensures staticFile(data(f)) && whence == 0 && offset >= 0 ==> err == nil
 //@ extern (sender.File).Stat params f
 //@   effect srcread(fileSrc(data(f)))
+//@   ensures err == nil ==> infoSize(data(result)) == fsize(data(f)) && 0 <= fsize(data(f))
 //@ extern (sender.File).Close params f
 
 //@ default (*sender.Transfer).
@@ -168,6 +173,12 @@ package sender
 //@ spec func fsize(f: int): int
 //@ spec func fbyte(f: int, i: int): int
 //@ spec func staticFile(f: int): bool
+// fileSeg(f, p, n) names the content of the file range [p, p+n) the way bid()
+// names the content of a byte slice: a slice holding exactly those bytes has
+// that id (definition of the abstraction, stated once).
+//@ spec func fileSeg(f: int, p: int, n: int): int
+// (the defining axiom, for all a, o, n, f, p:  (forall k in [0,n): a[o+k] == fbyte(f, p+k)) ==> bytesIdOf(a, o, n) == fileSeg(f, p, n),
+// is instantiated by the verifier where isFileSeg(slice, f, p) is written)
 // Representation invariant of the sliding read window.
 //@ spec func winOK(ms: *sender.mapStruct): bool = 0 <= ms.pOffset && 0 <= ms.pLen && ms.pLen <= len(ms.window) && ms.pSize == len(ms.window) && mod(ms.pOffset, 1024) == 0 && ms.fileSize == fsize(data(ms.f)) && ms.pOffset + ms.pLen <= ms.fileSize && ms.fileSize <= 4611686018427387904 && ms.defWindowSize >= 1024 && ms.defWindowSize <= 4294967296 && mod(ms.defWindowSize, 1024) == 0 && ms.pFdOffset == select(ghost.fpos, data(ms.f)) && (forall k :: 0 <= k && k < ms.pLen ==> ms.window[k] == fbyte(data(ms.f), ms.pOffset + k))
 //@ func (*sender.mapStruct).ptr
@@ -177,6 +188,7 @@ package sender
 //@   ensures[C02] [window-invariant] err == nil ==> winOK(ms)
 //@   ensures[C02,C17] [length] err == nil ==> len(result) == max(l, 0)
 //@   ensures[C02] [content] err == nil ==> forall k :: 0 <= k && k < l ==> result[k] == fbyte(data(ms.f), offset + k)
+//@   ensures[C02] [segment] err == nil && l >= 0 ==> isFileSeg(result, data(ms.f), offset)
 //@   ensures[C02] [succeeds] staticFile(data(ms.f)) && l >= 0 ==> err == nil
 //@   ensures[C02] [same-file] ms.f == old(ms.f) && ms.fileSize == old(ms.fileSize)
 //@   loop[C02] 0: invariant [read-progress] 0 <= readOffset && 0 <= readSize && readOffset + readSize == ms.pLen && ms.pLen <= len(ms.window) && ms.pFdOffset == ms.pOffset + readOffset && ms.pFdOffset == select(ghost.fpos, data(ms.f)) && ms.pOffset + ms.pLen <= ms.fileSize
@@ -191,7 +203,7 @@ package sender
 //@   requires[C02] [run-in-file] 0 <= offset && 0 <= n && offset + n <= ms.fileSize
 //@   loop[C02] 0: invariant [literal-progress] 0 <= l && l <= n && winOK(ms) && ms.f == old(ms.f) && ms.fileSize == old(ms.fileSize)
 //@   at[C02] (*rsyncwire.Conn).WriteInt32@1: assert [chunk-length-announced] arg1 == min(chunkSize, n - l) && arg1 > 0
-//@   at[C02] (io.Writer).Write: assert [literal-is-file-range] len(arg0) == min(chunkSize, n - l) && (forall k :: 0 <= k && k < len(arg0) ==> arg0[k] == fbyte(data(ms.f), offset + l + k))
+//@   at[C02] (io.Writer).Write: assert [literal-is-file-range] len(arg0) == min(chunkSize, n - l) && isFileSeg(arg0, data(ms.f), offset + l)
 //@   at[C02] (*rsyncwire.Conn).WriteInt32@2: assert [token-encoding] arg1 == -(token + 1)
 //@   ensures[C02] [window-invariant] err == nil ==> winOK(ms) && ms.f == old(ms.f) && ms.fileSize == old(ms.fileSize)
 //@   ensures[C02] [last-match-untouched] st.lastMatch == old(st.lastMatch)
@@ -214,10 +226,32 @@ package sender
 //@   requires[C02] [block-in-file] i >= 0 ==> i < len(head.Sums) && 0 <= head.Sums[i].Len && offset + head.Sums[i].Len <= ms.fileSize
 //@   at[C02] (*sender.Transfer).sendToken: assert [literal-run-since-last-match] arg2 == i && arg3 == st.lastMatch && arg4 == offset - st.lastMatch
 //@   loop[C02] 0: invariant [hash-progress] 0 <= j && winOK(ms) && ms.f == old(ms.f) && ms.fileSize == old(ms.fileSize) && st.lastMatch == old(st.lastMatch) && mod(j, chunkSize) == 0 && 0 <= n && st.lastMatch + n == offset + ite(i >= 0, head.Sums[i].Len, 0) && st.lastMatch + n <= ms.fileSize
-//@   at[C02] (hash.Hash).Write: assert [hash-sees-file-range] len(arg0) == min(chunkSize, n - j) && (forall k :: 0 <= k && k < len(arg0) ==> arg0[k] == fbyte(data(ms.f), st.lastMatch + j + k))
+//@   at[C02] (hash.Hash).Write: assert [hash-sees-file-range] len(arg0) == min(chunkSize, n - j) && isFileSeg(arg0, data(ms.f), st.lastMatch + j)
 //@   ensures[C02] [last-match-advances] err == nil ==> st.lastMatch == ite(i >= 0, offset + old(head.Sums[i].Len), offset)
 //@   ensures[C02] [window-invariant] err == nil ==> winOK(ms) && ms.f == old(ms.f) && ms.fileSize == old(ms.fileSize)
 //@ func (*sender.Transfer).sendFile
 //@   at[C17] (io.Writer).Write: assert [chunk-within-frame-limit] len(arg0) <= 262144
+// hashSearch: the signature search. Safety of every index and of the window
+// requests, the tiling of the file by literal runs and matched blocks, and
+// the strong-checksum gate in front of every block reference.
+//@ func (*sender.Transfer).hashSearch
+//@   nowrap
+//@   requires[C02] [sums-nonempty] len(head.Sums) > 0 && len(head.Sums) == head.ChecksumCount && len(targets) == len(head.Sums)
+//@   requires[C02] [header-ranges] 1 <= head.BlockLength && head.BlockLength <= 536870912 && 0 <= head.ChecksumLength && head.ChecksumLength <= 16
+//@   requires[C02] [block-lengths] forall q :: 0 <= q && q < len(head.Sums) ==> 1 <= head.Sums[q].Len && head.Sums[q].Len <= head.BlockLength
+//@   requires[C02] [targets-valid] forall q :: 0 <= q && q < len(targets) ==> 0 <= targets[q].index && targets[q].index < len(head.Sums)
+//@   requires[C02] [tag-table-valid] forall t :: has(tagTable, t) ==> 0 <= tagTable[t] && tagTable[t] < len(targets)
+//@   requires[C02] [fresh-search] st.lastMatch == 0
+//@   loop[C02] 0: invariant [window] winOK(ms) && ms.fileSize == infoSize(data(fi)) && ms.fileSize <= 1099511627776
+//@   loop[C02] 0: invariant [positions] 0 <= st.lastMatch && st.lastMatch <= offset && (offset <= end || offset == 0) && end == ms.fileSize + 1 - head.Sums[len(head.Sums) - 1].Len && 1 <= head.Sums[len(head.Sums) - 1].Len && head.Sums[len(head.Sums) - 1].Len <= head.BlockLength
+//@   loop[C02] 0: invariant [block-at-offset] k == min(head.BlockLength, ms.fileSize - offset) && 0 <= tagHits && tagHits <= offset
+//@   loop[C02] 0: invariant [backlog-bounded] offset - st.lastMatch <= head.BlockLength + chunkSize || end - st.lastMatch <= head.BlockLength + 2 * chunkSize
+//@   loop[C02] 1: invariant [window] winOK(ms) && ms.fileSize == infoSize(data(fi)) && ms.fileSize <= 1099511627776
+//@   loop[C02] 1: invariant [positions] 0 <= j && 0 <= st.lastMatch && st.lastMatch <= offset && offset < end && end == ms.fileSize + 1 - head.Sums[len(head.Sums) - 1].Len && 1 <= head.Sums[len(head.Sums) - 1].Len && head.Sums[len(head.Sums) - 1].Len <= head.BlockLength
+//@   loop[C02] 1: invariant [block-at-offset] k == min(head.BlockLength, ms.fileSize - offset) && 0 <= tagHits && tagHits <= offset + 1
+//@   loop[C02] 1: invariant [backlog-bounded] offset - st.lastMatch <= head.BlockLength + chunkSize || end - st.lastMatch <= head.BlockLength + 2 * chunkSize
+//@   loop[C02] 1: invariant [strong-sum-of-block] doneCsum2 ==> len(sum2) == 16 && bid(sum2) == strongSum(st.Seed, fileSeg(data(ms.f), offset, min(head.BlockLength, ms.fileSize - offset)))
+//@   at[C02] (*sender.Transfer).matched@1: assert [strong-checksum-gate] l == head.Sums[i].Len && base(local) == base(sum2) && off(local) == off(sum2) && len(local) == head.ChecksumLength && len(remote) == head.ChecksumLength && bid(local) == bid(remote) && bid(sum2) == strongSum(st.Seed, fileSeg(data(ms.f), offset, l))
+//@   at[C02] (*sender.Transfer).matched@3: assert [final-flush-at-eof] arg4 == ms.fileSize && arg5 == -1
 //@ func (*sender.Transfer).hashSearch
 //@   at[C17] (io.Writer).Write: assert [checksum-within-frame-limit] len(arg0) <= 262144
